@@ -1,7 +1,8 @@
 """C15 round 3 — the extended history language (model: coq/model/C15_Ext.v, `run2`).
 
-case = {"kind": "h2-…", "n": <#networks>, "k": <#caller-held side objects>, "views": bool, "skip": m, "ops": [op, ...]}
-(the first m ops — a fixed preamble — are executed but their observations are not recorded)
+case = {"kind": "h2-…", "n": <#networks>, "k": <#caller-held side objects>, "views": bool, "lite": bool, "skip": m, "ops": [op, ...]}
+(the first m ops — a fixed preamble — are executed but their observations are not recorded; with "lite" a query records
+only its answer, the state is recorded again at the next mutator)
 
 old ops (embedded by OBase; a trailing style element selects how the call is written):
   ["add", i, lhs, rhs, rule, eid]                    lhs/rhs = [[label, count], ...]  (tuples)
@@ -313,7 +314,10 @@ def impl2(case):
     for t, op in enumerate(case["ops"]):
         er, ans = apply2(nets, pool, op)
         if t >= skip:
-            out.append([ERR[er], ans, [net_obs(H, case.get("views", False)) for H in nets], [dict(p.to_dict()) for p in pool]])
+            if case.get("lite") and op[0] == "q":
+                out.append([ERR[er], ans])
+            else:
+                out.append([ERR[er], ans, [net_obs(H, case.get("views", False)) for H in nets], [dict(p.to_dict()) for p in pool]])
     return out
 
 
@@ -438,7 +442,7 @@ def in_model_domain(case):
 def coq_case2(case):
     if not in_model_domain(case):
         return None
-    return "run2 %s %s %s %s %s" % (cbool(case.get("views", False)), cnat(case["n"]), cnat(case.get("k", 0)),
+    return "run2 %s %s %s %s %s %s" % (cbool(case.get("views", False)), cbool(case.get("lite", False)), cnat(case["n"]), cnat(case.get("k", 0)),
                                    cnat(case.get("skip", 0)), clist([op_term(o) for o in case["ops"]]))
 
 
@@ -1037,11 +1041,19 @@ def gen_cases2(tier, rng):
     # on an empty network (degenerate): every query and the label ops
     for o in Q0 + [m for m in M if m[0] in ("mol", "molmap", "rmsp", "rmrxn", "merge", "copy")][::3]:
         cases.append(dict(kind="h2-empty", n=2, k=2, views=True, ops=[o, ["q", 0, "len"]]))
-    # (B) query -> edit -> same query (stale answers), without the always-on views
-    pairs = [(q, m) for q in Q0 for m in M if m[1] == 0 or m[0] in ("copy", "merge")]
-    take = rng.sample(pairs, 4000 if tier == "thorough" else 900)
-    for q, m in take:
-        cases.append(dict(kind="h2-stale", n=2, k=2, views=False, skip=len(PRE2), ops=PRE2 + [q, m, q]))
+    # (B) query -> edit -> same query (stale answers), without the always-on views: EVERY (query, mutator) pair is covered
+    # in the quick tier: the queries come in groups of 9, asked before and after one mutator
+    G = 9
+    groups = [Q0[a:a + G] for a in range(0, len(Q0), G)]
+    for m in M:
+        for g in groups:
+            cases.append(dict(kind="h2-stale", n=2, k=2, views=False, lite=True, skip=len(PRE2), ops=PRE2 + g + [m] + g))
+    if tier == "thorough":
+        for m in M:
+            for g in groups:
+                gq = [["q", 1, q[2]] + q[3:] for q in g]
+                cases.append(dict(kind="h2-stale", n=2, k=2, views=False, lite=True, skip=len(PRE2),
+                                  ops=PRE2 + g + gq + [m] + [["copy", 0, 1]] * 0 + g + gq))
     # (B') edit -> edit -> query / copy then edit the original, query both
     mm = [(a, b) for a in M for b in M]
     for a, b in rng.sample(mm, 600 if tier == "quick" else 3000):
